@@ -39,7 +39,7 @@ CLAUSES = ["paramsModelled", "posFits", "posAccepts", "posNames", "kwBound", "kw
 
 INPUT_OK = {"scalar", "int", "symint", "float", "bool", "dtype", "pyobj"}
 ATTR_OK = {
-    "int": (False, {"int", "symint", "bool", "dtype", "scalar"}),
+    "int": (False, {"int", "symint", "bool", "dtype"}),  # + a Scalar of an integer-only operator, see accepts()
     "float": (False, {"float", "scalar", "int", "symint"}),
     "string": (False, {"str", "device", "layout", "memfmt"}),
     "ints": (True, {"int", "symint", "bool"}),
@@ -55,6 +55,8 @@ def accepts(traced: bool, p: dict, arg: dict) -> bool:
         return True
     if p["isInput"]:
         return traced or arg["base"] in INPUT_OK
+    if p["attr"] == "int" and not arg["isList"] and arg["base"] == "scalar" and arg.get("intScalar"):
+        return True  # bitwise / shift operators: the Scalar is an integer by the operator's meaning
     spec = ATTR_OK.get(p["attr"])
     return bool(spec) and spec[0] == arg["isList"] and arg["base"] in spec[1]
 
@@ -143,6 +145,12 @@ def twin_defects(r: dict) -> list[str]:
     out = []
     if not spec_name_ok(r["qualified"]):
         out.append("badName")
+    base_name = r["qualified"].split("::", 1)[-1].split(".", 1)[0]
+    if r["func"].endswith("_complex") and not base_name.endswith("complex") and not r["isComplex"]:
+        out.append("complexName")
+    if any(x.get("intScalar") and not (x["base"] == "scalar" and r["qualified"].startswith(ex.INT_ONLY_PREFIXES))
+           for x in r["aten"]["positional"] + r["aten"]["kwonly"]):
+        out.append("schemaFlag")
     if not sig_faithful(r["sig"]):
         out.append("sigClass")
     if r["res"] == "undefined":
@@ -156,7 +164,8 @@ def twin_defects(r: dict) -> list[str]:
 
 
 def enc_aarg(a: dict) -> str:
-    return "/".join([a["name"], a["base"], "L" if a["isList"] else "-", "O" if a["optional"] else "-", "D" if a["hasDefault"] else "-"])
+    return "/".join([a["name"], a["base"], "L" if a["isList"] else "-", "O" if a["optional"] else "-", "D" if a["hasDefault"] else "-",
+                     "I" if a.get("intScalar") else "-"])
 
 
 def enc_param(p: dict) -> str:
@@ -172,7 +181,8 @@ def enc_codes(s: str) -> str:
 
 def row_line(r: dict) -> str:
     return " ".join(
-        ["row", enc_codes(r["qualified"]), "1" if r["isComplex"] else "0", "traced" if r["traceOnly"] else "scripted", r["res"], "P"]
+        ["row", enc_codes(r["qualified"]), "1" if r["isComplex"] else "0", "traced" if r["traceOnly"] else "scripted", r["res"],
+         enc_codes(r["func"]), "P"]
         + [enc_aarg(a) for a in r["aten"]["positional"]]
         + ["K"]
         + [enc_aarg(a) for a in r["aten"]["kwonly"]]
@@ -809,7 +819,8 @@ def accept_matrix(run, drv, stats, tie_broken) -> None:
                 tie_broken.append({"kind": "convert", "qualified": base, "detail": f"_convert_fx_arg_to_onnx_arg({v!r}) gives {type(conv).__name__}, the rule assumes {expect_type[base].__name__}"})
             for an, at in attrs.items():
                 prm = {"name": "p", "isInput": False, "attr": an, "required": True, "variadic": False, "pok": True, "annot": "otherPlain", "pyDefault": False}
-                arg = {"name": "x", "base": base, "isList": is_list, "optional": False, "hasDefault": False}
+                arg = {"name": "x", "base": base, "isList": is_list, "optional": False, "hasDefault": False,
+                       "intScalar": base == "scalar" and isinstance(v, int)}
                 lines.append(f"accepts scripted {enc_param(prm)} {enc_aarg(arg)}")
                 meta.append((an, at, base, is_list, conv))
     for (an, at, base, is_list, conv), out in zip(meta, drv.ask(lines)):
@@ -988,7 +999,7 @@ def main(run: core.Run) -> None:
 
     # ---- replay of a recorded case
     if run.replay_path:
-        replay(run, rows, objs)
+        replay(run, rows, objs, data)
         return
 
     # ---- translator + proof obligations
@@ -1122,7 +1133,12 @@ def main(run: core.Run) -> None:
             if "undefinedOp" in t or calls:
                 known_rows.setdefault(owner[r["qualified"]], []).append(r["qualified"])
             continue
-        if "badName" in extra:
+        if "complexName" in extra:
+            # a function written for complex inputs owns a (name, real) pair: its real twin was discarded / never registered
+            problems.append({"kind": "kind", "qualified": r["qualified"], "isComplex": r["isComplex"], "function": r["func"],
+                             "detail": f"({r['qualified']}, real) resolves to {r['func']}, a function written for complex inputs "
+                             f"(complex=True missing on its @torch_op?); duplicate-registration warnings at import: {data['dup_warnings'][:2]}"})
+        elif "badName" in extra:
             # the registry holds it, so the real _check_and_normalize_names accepted it: the name is the failing input
             problems.append({"kind": "name", "name": r["qualified"], "registered": True,
                              "detail": f"registered name {r['qualified']!r} (function {r['func']}) is not '<ns>::<name>[.<overload>]' "
@@ -1159,6 +1175,11 @@ def main(run: core.Run) -> None:
         if len(o.overloads) > 1 or len(o.complex) > 1:
             problems.append({"kind": "duplicate", "qualified": o.name, "detail": f"registry record holds {len(o.overloads)} real / {len(o.complex)} complex functions"})
     stats["duplicate_registration_warnings"] = len(data["dup_warnings"])
+    for w in data["dup_warnings"][:3]:
+        # "…overload for '<name>' already registered: [<first function>]": a decorated function was silently discarded
+        m = re.search(r"(Real|Complex) overload for '([^']+)' already registered", w)
+        problems.append({"kind": "duplicate", "qualified": m.group(2) if m else "?", "isComplex": bool(m and m.group(1) == "Complex"),
+                         "detail": "a second function is registered for the same (name, kind) pair and silently discarded at import: " + w[:300]})
     # the real registry's contents replayed through Lean register/torchlibOps must give get_torchlib_ops()'s list, in order
     seq, fid = [], {}
     for name, o in data["registry"].items():
@@ -1292,7 +1313,7 @@ def main(run: core.Run) -> None:
     if tree_fingerprint() != fp0:
         raise core.Infra("the anchored sources under VERIF_REPO changed while the check was running; rerun")
     # ---- verdict
-    order = {"call": 0, "undefined": 1, "duplicate": 2, "name": 3, "reg": 4, "proto": 5, "e2e": 6}
+    order = {"call": 0, "kind": 0, "undefined": 1, "duplicate": 2, "name": 3, "reg": 4, "proto": 5, "e2e": 6}
     problems.sort(key=lambda p: (order.get(p["kind"], 9), not p.get("registered", False), len(json.dumps(p, default=str))))
     reported = set()
     for p in problems:
@@ -1341,7 +1362,7 @@ def main(run: core.Run) -> None:
             raise core.Infra(f"required coverage counters are zero: {zero}")
 
 
-def replay(run: core.Run, rows, objs) -> None:
+def replay(run: core.Run, rows, objs, data) -> None:
     body = json.loads(open(run.replay_path).read())
     case = body.get("case", {})
     kind = case.get("kind")
@@ -1389,9 +1410,19 @@ def replay(run: core.Run, rows, objs) -> None:
     elif kind == "duplicate":
         n = 1
         c = sum(1 for r in rows if r["qualified"] == case["qualified"] and r["isComplex"] == case.get("isComplex", False))
-        print(f"REPLAY duplicate {case['qualified']} -> {c} functions")
+        dups = [w for w in data["dup_warnings"] if f"'{case['qualified']}'" in w]
+        print(f"REPLAY duplicate {case['qualified']} -> {c} functions, {len(dups)} duplicate-registration warnings at import")
         if c > 1:
             run.violation(case, "still more than one function for the pair")
+        elif dups:
+            run.violation(case, "a second registration for the pair is still discarded at import: " + dups[0][:200])
+    elif kind == "kind":
+        for r in rows:
+            if r["qualified"] == case["qualified"] and r["isComplex"] == case.get("isComplex", False):
+                n += 1
+                print(f"REPLAY kind ({r['qualified']}, {'complex' if r['isComplex'] else 'real'}) -> {r['func']}")
+                if "complexName" in twin_defects(r):
+                    run.violation(case, f"({r['qualified']}, real) still resolves to {r['func']}, a function written for complex inputs")
     elif kind == "e2e":
         import torch
 
